@@ -90,18 +90,46 @@ fn add_provider(key: &[u8], provider: &PeerId) -> Vec<u8> {
     m
 }
 
+/// The application behind a filtering server (StoreInserts::FilterBoth): it stores every record it is offered. `sender` is
+/// the peer whose request has just been processed (requests are resolved one at a time).
+fn app_step(server: &PNode<kad::Behaviour<kad::store::MemoryStore>>, sender: PeerId) -> SimResult {
+    use kad::store::RecordStore;
+    for (_, ev) in server.take_events() {
+        let libp2p_swarm::SwarmEvent::Behaviour(kad::Event::InboundRequest { request }) = ev else { continue };
+        match request {
+            kad::InboundRequest::PutRecord { record: Some(r), .. } => {
+                probe("record-offered-to-application");
+                let _ = server.with(|b| b.store_mut().put(r));
+            }
+            kad::InboundRequest::AddProvider { record: Some(r) } => {
+                probe("provider-offered-to-application");
+                ensure!(r.provider == sender, "C43/foreign-provider-offered", "a provider record naming {} was offered to the application although it was sent by {sender}", r.provider);
+                let _ = server.with(|b| b.store_mut().add_provider(r));
+            }
+            _ => {}
+        }
+    }
+    Ok(())
+}
+
 fn kad_inbound() -> SimResult {
     begin();
     draw_policy();
     net::with_net(|n| n.faults = false);
     let record_ttl = if choose(3) == 0 { None } else { Some(Duration::from_secs(3 + choose(58) as u64)) };
     let provider_ttl = if choose(2) == 0 { None } else { Some(Duration::from_secs(10 + choose(100) as u64)) };
-    note_val("cfg", record_ttl.map(|d| d.as_secs()).unwrap_or(0) + 1000 * provider_ttl.is_some() as u64);
+    // In one run in three the server does not store on its own: it offers every inbound record to the application
+    // (StoreInserts::FilterBoth) and the harness plays an application that stores whatever it is offered.
+    let filtering = choose(3) == 0;
+    note_val("cfg", record_ttl.map(|d| d.as_secs()).unwrap_or(0) + 1000 * provider_ttl.is_some() as u64 + 2000 * filtering as u64);
     let server = PNode::new(
         |k| {
             let id = k.public().to_peer_id();
             let mut cfg = kad::Config::new(StreamProtocol::new(PROTO));
             cfg.set_record_ttl(record_ttl).set_provider_record_ttl(provider_ttl).set_replication_interval(None).set_publication_interval(None).set_provider_publication_interval(None);
+            if filtering {
+                cfg.set_record_filtering(kad::StoreInserts::FilterBoth);
+            }
             let mut b = kad::Behaviour::with_config(id, kad::store::MemoryStore::new(id), cfg);
             b.set_mode(Some(kad::Mode::Server));
             b
@@ -162,6 +190,7 @@ fn kad_inbound() -> SimResult {
                 clients[c].node.with(|b| b.open(speer, None, OpenReq { tag, proto: PROTO.into(), send: vec![put_value(&key, &value, publisher.as_ref(), ttl)], read: 1, after: After::Close }));
                 let t_sent = elapsed();
                 settle(Duration::from_millis(10));
+                app_step(&server, me)?;
                 let now = web_time::Instant::now();
                 let after = server.with(|b| b.store_mut().get(&rkey).map(|r| r.into_owned()));
                 if publisher == Some(speer) {
@@ -246,6 +275,7 @@ fn kad_inbound() -> SimResult {
                 tag += 1;
                 clients[c].node.with(|b| b.open(speer, None, OpenReq { tag, proto: PROTO.into(), send: vec![add_provider(&key, &announced)], read: 0, after: After::Close }));
                 settle(Duration::from_millis(10));
+                app_step(&server, me)?;
                 let after: Vec<PeerId> = server.with(|b| b.store_mut().providers(&rkey).into_iter().map(|p| p.provider).collect());
                 for p in &after {
                     if !before.contains(p) {
